@@ -364,3 +364,123 @@ pub fn c20_columns(c: &ColCase) -> Outcome {
     let _ = (display_width(""), WordSeparator::AsciiSpace);
     Ok(nrows >= 2 || protrudes)
 }
+
+// ------------------------------------------------------------------------------------------- A4
+/// A4 — the std behaviour the Verus side-cars ASSUME of the transparent wrappers, re-stated here in executable form (a
+/// hand translation of the spec functions in /verif/contracts) and compared with the real std functions.
+pub fn a4_std_models(c: &StrCase) -> Outcome {
+    let s = c.text.as_str();
+    let b = s.as_bytes();
+    // --- str::lines  (prelude/lines_bytes.vrs: lines_b)
+    fn lines_b(b: &[u8]) -> Vec<Vec<u8>> {
+        if b.is_empty() {
+            return vec![];
+        }
+        match b.iter().position(|&x| x == 10) {
+            None => vec![b.to_vec()],
+            Some(i) => {
+                let mut head = b[..i].to_vec();
+                if head.last() == Some(&13) {
+                    head.pop();
+                }
+                let mut v = vec![head];
+                v.extend(lines_b(&b[i + 1..]));
+                v
+            }
+        }
+    }
+    let real: Vec<Vec<u8>> = s.lines().map(|l| l.as_bytes().to_vec()).collect();
+    if real != lines_b(b) {
+        return Err(format!("str::lines({:?}) = {:?}, the model gives {:?}", s, real, lines_b(b)));
+    }
+    // --- str::split(&str) / split(char): pieces with positions  (u11: VxSplitStr, u10: VxSplitChar)
+    for sep in ["\n", "\r\n"] {
+        let pieces: Vec<&str> = s.split(sep).collect();
+        if pieces.is_empty() {
+            return Err(format!("split({:?}) of {:?} yields no piece", sep, s));
+        }
+        if !s.contains(sep) && pieces != vec![s] {
+            return Err(format!("split({:?}) of {:?}: separator absent but pieces {:?}", sep, s, pieces));
+        }
+        let mut pos = 0usize;
+        for (k, p) in pieces.iter().enumerate() {
+            let n = p.len();
+            if pos + n > s.len() || &s[pos..pos + n] != *p || p.contains(sep) {
+                return Err(format!("split({:?}) of {:?}: piece {} {:?} is not the separator-free text at offset {}", sep, s, k, p, pos));
+            }
+            if k + 1 < pieces.len() {
+                if pos + n + sep.len() > s.len() || &s[pos + n..pos + n + sep.len()] != sep {
+                    return Err(format!("split({:?}) of {:?}: piece {} is not followed by the separator", sep, s, k));
+                }
+            } else if pos + n != s.len() {
+                return Err(format!("split({:?}) of {:?}: the last piece does not end at the end of the text", sep, s));
+            }
+            pos += n + sep.len();
+        }
+    }
+    if s.split('\n').collect::<Vec<_>>() != s.split("\n").collect::<Vec<_>>() {
+        return Err(format!("split('\\n') and split(\"\\n\") differ on {:?}", s));
+    }
+    // --- str::split_terminator('\n')  (u8: split_term_spec = split pieces without a trailing empty piece)
+    let mut st: Vec<&str> = s.split('\n').collect();
+    if st.last() == Some(&"") {
+        st.pop();
+    }
+    if s.split_terminator('\n').collect::<Vec<_>>() != st {
+        return Err(format!("split_terminator('\\n') of {:?} = {:?}, the model gives {:?}", s, s.split_terminator('\n').collect::<Vec<_>>(), st));
+    }
+    // --- trim_end_matches(' ') (is_space_trim), trim_end / trim_start / trim (std_more.vrs, u8: trim_end_spec)
+    let t = s.trim_end_matches(' ');
+    if !(s.starts_with(t) && s[t.len()..].bytes().all(|x| x == 32) && !t.ends_with(' ')) {
+        return Err(format!("trim_end_matches(' ') of {:?} = {:?}", s, t));
+    }
+    let te = s.trim_end();
+    if !(s.starts_with(te) && s[te.len()..].chars().all(char::is_whitespace) && !te.chars().next_back().map_or(false, char::is_whitespace)) {
+        return Err(format!("trim_end of {:?} = {:?}", s, te));
+    }
+    let ts = s.trim_start();
+    if !(s.ends_with(ts) && s[..s.len() - ts.len()].chars().all(char::is_whitespace) && !ts.chars().next().map_or(false, char::is_whitespace)) {
+        return Err(format!("trim_start of {:?} = {:?}", s, ts));
+    }
+    if s.trim() != s.trim_start().trim_end() || s.trim().is_empty() != s.chars().all(char::is_whitespace) {
+        return Err(format!("trim of {:?} = {:?}", s, s.trim()));
+    }
+    // --- find('\n') (u4), match_indices('-') (u16), char_indices (u9, u15, u18, u20): byte offsets of char starts
+    let first = b.iter().position(|&x| x == 10);
+    if s.find('\n') != first {
+        return Err(format!("find('\\n') of {:?} = {:?}, first LF byte at {:?}", s, s.find('\n'), first));
+    }
+    let mut off = 0usize;
+    let mut ci = Vec::new();
+    for ch in s.chars() {
+        ci.push((off, ch));
+        off += ch.len_utf8();
+    }
+    if s.char_indices().collect::<Vec<_>>() != ci {
+        return Err(format!("char_indices of {:?}", s));
+    }
+    let mi: Vec<usize> = ci.iter().filter(|(_, ch)| *ch == '-').map(|(o, _)| *o).collect();
+    if s.match_indices('-').map(|(i, _)| i).collect::<Vec<_>>() != mi {
+        return Err(format!("match_indices('-') of {:?}", s));
+    }
+    // --- String::len / str::len are byte lengths; is_empty
+    if s.len() != b.len() || s.is_empty() != (s.chars().count() == 0) {
+        return Err(format!("len / is_empty of {:?}", s));
+    }
+    // --- once: the byte/char classifiers of std_more.vrs on their whole domain
+    if c.text.is_empty() {
+        for x in 0u8..=255 {
+            if x.is_ascii_whitespace() != (x == 32 || x == 9 || x == 10 || x == 12 || x == 13) {
+                return Err(format!("u8::is_ascii_whitespace({})", x));
+            }
+        }
+        for u in 0u32..0x110000 {
+            if let Some(ch) = char::from_u32(u) {
+                if ch.is_ascii() != (u < 128) {
+                    return Err(format!("char::is_ascii(U+{:04X})", u));
+                }
+            }
+        }
+    }
+    Ok(s.len() >= 2)
+}
